@@ -184,6 +184,16 @@ def main(ctx):
         for v in ('ignore', 'add', 'remove', 'force'):
             cases.append(family.Case(fixed_c, 'C', {o['name']: v}, {'kind': 'sweep-fixed', 'file': 'fixed:c'}))
             cases.append(family.Case(fixed_cpp, 'CPP', {o['name']: v}, {'kind': 'sweep-fixed', 'file': 'fixed:cpp'}))
+    # every position option x every value on comment-rich renderings of the fixed C++ program (a token that changes lines must not
+    # end up behind a '//' comment or inside a directive)
+    npos = 0
+    for rs in (11, 12, 13):
+        rich = layout.render(cpp_toks, random.Random(rs), 'CPP', dict(p_cmt=0.3))[0].encode()
+        for o in POS_OPTS:
+            for v in ('lead', 'trail', 'lead_break', 'trail_break', 'lead_force', 'trail_force', 'join'):
+                cases.append(family.Case(rich, 'CPP', {o: v}, {'kind': 'pos-sweep', 'file': 'fixed:cpp-rich-%d' % rs}))
+                npos += 1
+    ctx.extra['pos_sweep_cases'] = npos
     # (b) mutated corpus files
     nmut = 2500 if quick else 60000
     small = [f for f in files if os.path.getsize(os.path.join(corpus.input_root(), f[0])) < 12000]
